@@ -16,12 +16,12 @@ def run():
         except k2v.GenError as e:
             print(f"[setup] k2v {name}: {e}")
     # rust harness: all binaries
-    with C.Lock("cargo"):
-        C.harness_prepare()
+    with C.Lock("cargo-" + C.repo_tag()):
+        crate = C.harness_prepare()
         env = dict(C.ENV)
         env["RUSTFLAGS"] = "--cfg koto_verif"
-        r, out = C.sh(["cargo", "build", "--offline", "--bins", "--target-dir", os.path.join(C.BUILD, "cargo")],
-                      cwd=C.HARNESS, env=env, timeout=3600)
+        r, out = C.sh(["cargo", "build", "--offline", "--bins", "--target-dir",
+                       os.path.join(C.BUILD, "cargo-" + C.repo_tag())], cwd=crate, env=env, timeout=3600)
     print(out[-1500:])
     if r != 0:
         print("[setup] cargo build failed")
